@@ -18,7 +18,9 @@ Delivery spec (JSON-able, part of the plan / replay file), all keys optional:
      "seed": int, "bias": "small"|"geo"|"header", # for mode == rand
      "eof_at":   [msg idx, offset],  # deliver only `offset` bytes of that message, then EOF
      "rst_at":   [msg idx, offset],  # ... then ECONNRESET
-     "stall_at": [msg idx, offset]}  # ... then silence on an open connection
+     "stall_at": [msg idx, offset],  # ... then silence on an open connection
+     "gaps":        [[msg idx, chunk idx, seconds], ...],  # virtual time that passes before that segment arrives (chunk 0 = reply delay)
+     "clock_jumps": [[msg idx, chunk idx, seconds], ...]}  # the WALL clock steps by that much before that segment arrives (no waiting)
 
 ``msg idx`` counts the messages the peer sent on this connection (0 = first).
 """
@@ -128,7 +130,15 @@ class Conn:
             self.stats["seg"] += 1
             if any(sum(len(c) for c in chunks[: i + 1]) < 16 for i in range(len(chunks) - 1)):
                 self.stats["seg_in_header"] += 1
-        for c in chunks:
+        gaps = {(g[0], g[1]): g[2] for g in spec.get("gaps", ())}
+        jumps = {(g[0], g[1]): g[2] for g in spec.get("clock_jumps", ())}
+        for ci, c in enumerate(chunks):
+            if (idx, ci) in gaps:
+                self.stats["gap"] += 1
+                self._deliver(("gap", float(gaps[(idx, ci)])))
+            if (idx, ci) in jumps:
+                self.stats["clock_jump"] += 1
+                self._deliver(("clockjump", float(jumps[(idx, ci)])))
             self._deliver(("data", c))
         if end is not None:
             self.ended = True
@@ -200,6 +210,21 @@ class SimSocket(Conn):
         """One more item of the peer's stream becomes visible to the client (one arrival per socket call)."""
         while self._rx:
             item = self._rx.pop(0)
+            if item[0] == "gap":
+                # nothing arrives for item[1] seconds: a socket with a timeout gives up after its timeout, a blocking one waits
+                wait = item[1]
+                if self._timeout is not None and wait > self._timeout:
+                    self._rx.insert(0, ("gap", wait - self._timeout))
+                    self.world.clock.advance_ns(int(self._timeout * 1e9))
+                    self.world.stats["vtime_ns"] += int(self._timeout * 1e9)
+                    raise TimeoutError("timed out")
+                self.world.clock.advance_ns(int(wait * 1e9))
+                self.world.stats["vtime_ns"] += int(wait * 1e9)
+                continue
+            if item[0] == "clockjump":
+                self.world.clock.advance_ns(int(item[1] * 1e9))
+                self.world.log("clock.jump", self.cid, item[1])
+                continue
             if item[0] == "data":
                 if item[1]:
                     self._head += item[1]
@@ -289,6 +314,48 @@ class SimSocket(Conn):
         data = self._read(n, flags)
         view[: len(data)] = data
         return len(data)
+
+    def fileno(self) -> int:
+        if self.closed_by_client:
+            return -1
+        self.world.sim_fds[20000 + self.cid] = self
+        return 20000 + self.cid
+
+    def gettimeout(self):
+        return self._timeout
+
+    def setblocking(self, flag: bool) -> None:
+        self._timeout = None if flag else 0.0
+
+    def wait_readable(self, timeout: t.Optional[float]) -> bool:
+        """select / poll on this socket: True when a read would not block (data, EOF, reset); virtual time passes while waiting."""
+        while True:
+            if self._head or self._eof or self.closed_by_client:
+                return True
+            if not self._rx:
+                if timeout is None:
+                    raise Blocks(f"waiting for readability of connection {self.cid} can never end")
+                self.world.clock.advance_ns(int(timeout * 1e9))
+                return False
+            kind = self._rx[0][0]
+            if kind == "gap":
+                wait = self._rx[0][1]
+                if timeout is not None and wait > timeout:
+                    self._rx[0] = ("gap", wait - timeout)
+                    self.world.clock.advance_ns(int(timeout * 1e9))
+                    return False
+                self._rx.pop(0)
+                self.world.clock.advance_ns(int(wait * 1e9))
+                if timeout is not None:
+                    timeout -= wait
+                continue
+            if kind == "clockjump":
+                self.world.clock.advance_ns(int(self._rx.pop(0)[1] * 1e9))
+                continue
+            if kind == "stall":
+                self._rx.pop(0)
+                continue
+            return True
 
     def shutdown(self, how) -> None:
         if self.closed_by_client:
